@@ -189,6 +189,27 @@ def workload(ctx, lentil):
                     fam.append([kr, kc, float(I.sum()), float(I.min())])
                 except Exception as e:
                     ctx.check(False, 'nested:monotone', f'nested|raises={type(e).__name__}', str(e), desc)
+            # mask-defined windows: centred boxes of any aspect ratio given as an output mask (same nesting requirement)
+            for k in ks[:3]:
+                kr = min(Nr, k + int(rng.integers(0, 4)))
+                kc = k
+                try:
+                    mk = np.zeros((Nr * os_, Nc * os_))
+                    r0, c0 = (Nr * os_) // 2 - (kr * os_) // 2, (Nc * os_) // 2 - (kc * os_) // 2
+                    mk[r0:r0 + kr * os_, c0:c0 + kc * os_] = 1
+                    out = lentil.propagate_dft(w, du, shape=(Nr, Nc), oversample=os_, mask=mk)
+                    with probe.quiet():
+                        I = out.intensity
+                    fam.append([kr, kc, float(I.sum()), float(I.min())])
+                    # and the same window asked for through shape= must hold the same energy
+                    o2 = lentil.propagate_dft(w, du, shape=(kr, kc), oversample=os_)
+                    with probe.quiet():
+                        e2 = float(o2.intensity.sum())
+                    ctx.close('nested:monotone', np.array([float(I.sum())]), np.array([e2]), 1e-10, 'nested|mask-vs-shape',
+                              'a centred window selected by a mask holds a different energy than the same window selected by shape',
+                              dict(desc, window=[kr, kc]), scale=max(P, 1e-300))
+                except Exception as e:
+                    ctx.check(False, 'nested:monotone', f'nested-mask|raises={type(e).__name__}', str(e), desc)
             # make the family nested in both axes
             fam.sort(key=lambda t: (t[0], t[1]))
             chain = []
@@ -206,6 +227,14 @@ def workload(ctx, lentil):
         if not np.any(a):
             a[0, 0] = 1
         p = float(np.exp(rng.uniform(np.log(1e-3), np.log(1e6)))) if rng.random() < 0.8 else 1
+        kindp = i % 5
+        if kindp == 3:
+            # input whose power is already within 1e-9..1e-4 (relative) of the target: still has to come out at exactly p
+            a = a * np.sqrt(p / np.sum(np.abs(a) ** 2)) * (1 + float(10 ** rng.uniform(-9, -4)) * rng.choice([-1, 1]))
+        elif kindp == 4:
+            # very small powers (absolute tolerances must not matter)
+            a = a * 1e-6
+            p = float(10 ** rng.uniform(-12, -8))
         desc = {'normalize_power': list(shape), 'p': p, 'complex': bool(np.iscomplexobj(a))}
         ctx.case(desc, ['normalize_power'], nontrivial=a.size > 1)
         b = lentil.normalize_power(a, p) if p != 1 or rng.random() < 0.5 else lentil.normalize_power(a)
